@@ -121,7 +121,11 @@ def patch_isolation_on_models(prog):
     from ..guards import Flow, Obj
     from ..objinterp import ObjRunner
     problems = []
-    for peptide_first in (False, True):
+    # what the patch does: adds an atom / removes one / adds a torsion - all three, and each alone (CYX only removes, a cap only adds)
+    kinds = {"adds, removes and adds a torsion": (True, True, True), "only removes an atom": (False, True, False),
+             "only adds a torsion": (False, False, True), "only adds an atom": (True, False, False)}
+    import itertools as _it
+    for (kind, (adds, removes, torsion)), peptide_first in _it.product(kinds.items(), (False, True)):
         for has_removed in (True, False):
             ref = Obj({"__class__": "DefinitionResidue", "name": "CYS", "dihedrals": ["N CA CB SG"],
                        "map": {n: Obj({"__class__": "DefinitionAtom", "name": n, "bonds": list(b)}) for n, b in
@@ -139,8 +143,8 @@ def patch_isolation_on_models(prog):
 
             r1, r2 = residue("first", has_removed), residue("second", True)
             patches = {
-                "MODEL": Obj({"__class__": "Patch", "name": "MODEL", "map": {"XS": Obj({"__class__": "DefinitionAtom", "name": "XS", "bonds": ["SG"]})},
-                              "remove": ["HG"], "dihedrals": ["CA CB SG XS"], "altnames": {}, "newname": ""}),
+                "MODEL": Obj({"__class__": "Patch", "name": "MODEL", "map": {"XS": Obj({"__class__": "DefinitionAtom", "name": "XS", "bonds": ["SG"]})} if adds else {},
+                              "remove": ["HG"] if removes else [], "dihedrals": ["CA CB SG XS"] if torsion else [], "altnames": {}, "newname": ""}),
                 "PEPTIDE": Obj({"__class__": "Patch", "name": "PEPTIDE", "map": {"N+1": Obj({"__class__": "DefinitionAtom", "name": "N+1", "bonds": ["C"]})},
                                 "remove": [], "dihedrals": [], "altnames": {}, "newname": ""}),
             }
@@ -180,17 +184,17 @@ def patch_isolation_on_models(prog):
             except Flow as fl:
                 problems.append(f"apply_patch stops with {fl.value}")
                 continue
-            hist = f"{'after the PEPTIDE patch' if peptide_first else 'first patch'}, residue {'with' if has_removed else 'without'} the removed atom"
+            hist = f"a patch that {kind}, {'after the PEPTIDE patch' if peptide_first else 'first patch'}, residue {'with' if has_removed else 'without'} the removed atom"
             m1, m2 = r1["reference"]["map"], r2["reference"]["map"]
-            if "HG" in m1 or "XS" not in m1 or "HG" in m1.get("SG", {}).get("bonds", []) or "XS" not in m1.get("SG", {}).get("bonds", []) \
-                    or "CA CB SG XS" not in r1["reference"]["dihedrals"]:
+            sg1 = m1.get("SG", {}).get("bonds", [])
+            if (removes and ("HG" in m1 or "HG" in sg1)) or (adds and ("XS" not in m1 or "XS" not in sg1)) or (torsion and "CA CB SG XS" not in r1["reference"]["dihedrals"]):
                 problems.append(f"{hist}: the patched residue's own topology is not the patched one (atoms {sorted(m1)}, SG bonded to {m1.get('SG', {}).get('bonds')})")
             if "HG" not in m2 or "XS" in m2 or "HG" not in m2["SG"]["bonds"] or "XS" in m2["SG"]["bonds"] or "CA CB SG XS" in r2["reference"]["dihedrals"]:
                 problems.append(f"{hist}: the patch leaks to the other residue of the same type (its topology now has atoms {sorted(m2)}, SG bonded to "
                                 f"{m2['SG']['bonds']}, torsions {r2['reference']['dihedrals']})")
             if "XS" in patches["MODEL"]["map"] and patches["MODEL"]["map"]["XS"]["bonds"] != ["SG"]:
                 problems.append(f"{hist}: the patch definition itself was modified")
-            if "MODEL" not in r1["patches"] or "HG" in r1["map"]:
+            if "MODEL" not in r1["patches"] or (removes and "HG" in r1["map"]):
                 problems.append(f"{hist}: the patched residue keeps the removed atom or does not record the patch")
     return problems
 
